@@ -35,6 +35,7 @@ struct config {
 		int	early;
 		int	rdomain;
 		int	trace;
+		int	builddir;
 	} interpolate;
 
 	enum robsd_mode			  mode;
